@@ -6466,8 +6466,12 @@ impl Nudge {
             // When balancing up to units bigger than weeks, no weeks are
             // produced. The whole weeks are in the days instead, and we'd
             // otherwise drop them below.
+            //
+            // N.B. The division needs to truncate, since the number of days
+            // has the sign of the span. (The `/` operator on our ranged
+            // integers is Euclidean division.)
             let days: NoUnits = balanced.get_days_ranged().rinto();
-            balanced.get_units_ranged(smallest) + (days / C(7))
+            balanced.get_units_ranged(smallest) + days.div_ceil(C(7))
         } else {
             balanced.get_units_ranged(smallest)
         };
